@@ -359,10 +359,12 @@ func (s *Service) trafficPeerChequeUpdate(peerAddress common.Address, lastCheque
 	traffic := s.getTraffic(peerAddress)
 	traffic.Lock()
 	defer traffic.Unlock()
-	traffic.retrieveChequeTraffic = traffic.retrieveChainTraffic
-	traffic.retrieveTraffic = traffic.retrieveChainTraffic
-	traffic.transferChequeTraffic = traffic.transferChainTraffic
-	traffic.transferTraffic = traffic.transferChainTraffic
+	// never lower what the running service already knows: a refresh works on
+	// a snapshot of the stored cheques taken before its chain calls
+	traffic.retrieveChequeTraffic = s.maxBigint(traffic.retrieveChequeTraffic, traffic.retrieveChainTraffic)
+	traffic.retrieveTraffic = s.maxBigint(traffic.retrieveTraffic, traffic.retrieveChainTraffic)
+	traffic.transferChequeTraffic = s.maxBigint(traffic.transferChequeTraffic, traffic.transferChainTraffic)
+	traffic.transferTraffic = s.maxBigint(traffic.transferTraffic, traffic.transferChainTraffic)
 	if cq, ok := lastCheques[peerAddress]; ok {
 		traffic.retrieveTraffic = s.maxBigint(traffic.retrieveTraffic, cq.CumulativePayout)
 		traffic.retrieveChequeTraffic = s.maxBigint(traffic.retrieveChequeTraffic, cq.CumulativePayout)
